@@ -18,7 +18,7 @@ RULE = ("(a) programs of 4..25 operations of the modelled algebra (notes, tonali
         "result of an earlier operation")
 TRUSTED = ["id()-based object identity and the field walker of the harness (type, val, octave, duration, mode, accident, amp, tags, "
            "tempo, pedal; notes list; score dict; chords list; config; tonality fields)"]
-ASSUMPTIONS = ["in-place forms are not called: item assignment, arguments named inplace, attribute assignment by the user",
+ASSUMPTIONS = ["in-place forms are not called (arguments named inplace, attribute assignment by the user), except item assignment score[i] = chord in the histories stream, where the assigned score is the only object allowed to change",
                "operations that raise are not violations (they must still leave every object unchanged, which is checked)"]
 
 
@@ -108,7 +108,7 @@ def gen_program(rng, n):
     while len(prog) < n:
         w = rng.choice(["NewNote", "NoteUpd", "Concat", "Concat", "MelMap", "MelRepeat", "MelSlice", "NoteToMelody", "NewChord", "ChordCall",
                         "ChordCall", "ChordUpd", "ChordAdd", "ScoreOf", "ScoreAddChord", "ScoreAddScore", "ScoreIndex", "ScoreSlice", "ScoreMap",
-                        "EditFirstNotes", "NewTon"])
+                        "EditFirstNotes", "NewTon", "ScoreRepeat"])
         if w == "NewNote":
             add({"op": w, "n": rnote(rng)}, "note")
         elif w == "NewTon":
@@ -151,6 +151,8 @@ def gen_program(rng, n):
             add({"op": w, "s": pick("score"), "i": i, "j": i + rng.randrange(1, 3)}, "score")
         elif w == "ScoreMap" and pick("score") is not None:
             add({"op": w, "s": pick("score"), "u": rng.choice([["UCopy"], ["UAmp", rng.choice([30, 90])]])}, "score")
+        elif w == "ScoreRepeat" and pick("score") is not None:
+            add({"op": w, "s": pick("score"), "k": rng.choice([1, 1, 2, 3, 0])}, "score")
         elif w == "EditFirstNotes" and pick("score") is not None:
             add({"op": w, "s": pick("score"), "seed": rng.randrange(1000)}, "score")
     return prog
@@ -227,6 +229,8 @@ def run_op(op, pool):
         return g("s")[op["i"]:op["j"]]
     if w == "ScoreMap":
         return apply_upd(g("s"), op["u"])
+    if w == "ScoreRepeat":
+        return g("s") * op["k"]
     if w == "EditFirstNotes":
         import numpy as np
         from musiclang.transform import VoiceLeading
@@ -341,6 +345,8 @@ def coq_op(op, extra):
         return f"(ScoreSlice {N(op['s'])} {N(op['i'])} {N(op['j'])})"
     if w == "ScoreMap":
         return f"(ScoreMap {N(op['s'])} {coq_upd(op['u'])})"
+    if w == "ScoreRepeat":
+        return f"(ScoreRepeat {N(op['s'])} {N(op['k'])})"
     if w == "EditFirstNotes":
         return f"(EditFirstNotes {N(op['s'])} {L([L([T(Z(v), Z(o)) for v, o in ch]) for ch in extra])})"
     raise ValueError(w)
@@ -420,6 +426,24 @@ class HeapPrograms(Stream):
                 c = nd[1]
                 ps = L([T(S(nm), f"{k}%nat") for nm, k in nd[3]])
                 enc.append(f"(NChord {Z(int(c.element))} {S(c.extension)} {nd[2]}%nat {Z(int(c.octave))} {ps})")
+        if mutated is None:
+            # the in-place form the property names, applied to every score of the pool in turn: score[0] = chord changes THAT score
+            # object only (two scores that are one list of chords under two names would both change)
+            from musiclang import Score, Chord, Tonality
+            for k, o in enumerate(pool):
+                if isinstance(o, Score) and o.chords:
+                    before = {}
+                    for x in pool:
+                        walk(x, before)
+                    o[0] = Chord(0, tonality=Tonality(0))
+                    after = {}
+                    for x in pool:
+                        walk(x, after)
+                    bad = [i for i, f in before.items() if i != id(o) and i in after and after[i] != f]
+                    if bad:
+                        mutated = {"op": f"item assignment on the result of {executed[k]['op']}", "index": k, "was": describe(before[bad[0]]),
+                                   "now": describe(after[bad[0]])}
+                        break
         return {"executed": executed, "extras": extras, "roots": roots, "nodes": enc, "mutated": mutated, "n": len(executed)}
 
     def term(self, case, r):
@@ -526,6 +550,35 @@ def catalogue():
     add("TransposeDiatonic", ["mel"], lambda a, r: TransposeDiatonic(r.choice([1, -2]))(a[0]))
     add("TransposeChromatic-score", ["score"], lambda a, r: TransposeChromatic(r.choice([1, 3]))(a[0]))
     add("LimitRegister-score", ["score"], lambda a, r: LimitRegister(-5, 12)(a[0]))
+    from musiclang.transform import library as TL
+    add("Modulate(ton)-score", ["score", "ton"], lambda a, r: TL.Modulate(a[1])(a[0]))
+    add("Modulate(ton)-chord", ["chord", "ton"], lambda a, r: TL.Modulate(a[1])(a[0]))
+    add("ModulateKeepOriginMode(ton)-score", ["score", "ton"], lambda a, r: TL.ModulateKeepOriginMode(a[1])(a[0]))
+    add("ModulateKeepOriginMode(ton)-chord", ["chord", "ton"], lambda a, r: TL.ModulateKeepOriginMode(a[1])(a[0]))
+    add("ModulateKeepOriginMode(int)-score", ["score"], lambda a, r: TL.ModulateKeepOriginMode(r.choice([2, 5, 7]))(a[0]))
+    add("RepeatChord-score", ["score"], lambda a, r: TL.RepeatChord(2)(a[0]))
+    add("RepeatScore-score", ["score"], lambda a, r: TL.RepeatScore(r.choice([1, 2]))(a[0]))
+    add("ReverseMelody", ["score"], lambda a, r: TL.ReverseMelody()(a[0]))
+    add("ReverseMelodyWithoutRhythm", ["mel"], lambda a, r: TL.ReverseMelodyWithoutRhythm()(a[0]))
+    add("InvertMelody", ["mel"], lambda a, r: TL.InvertMelody()(a[0]))
+    add("CircularPermutationMelody", ["chord"], lambda a, r: TL.CircularPermutationMelody(r.choice([1, 2]))(a[0]))
+    add("SelectRangeMelody", ["mel"], lambda a, r: TL.SelectRangeMelody(0, 2)(a[0]))
+    add("ApplySilence-note", ["note"], lambda a, r: TL.ApplySilence()(a[0]))
+    add("ApplyContinuation-score", ["score"], lambda a, r: TL.ApplyContinuation()(a[0]))
+    add("ContinuationWhenSameNote", ["score"], lambda a, r: TL.ContinuationWhenSameNote()(a[0]))
+    add("ExtractMainTonality", ["score"], lambda a, r: TL.ExtractMainTonality()(a[0]))
+    add("MostCommonTonalities", ["score"], lambda a, r: TL.MostCommonTonalities(2)(a[0]))
+    add("PitchDynamizer", ["score"], lambda a, r: TL.PitchDynamizer()(a[0]))
+    add("ConcatScores", ["score", "score"], lambda a, r: TL.ConcatScores()(a[0], a[1]))
+    def assign_item(a, r):
+        # the explicitly in-place form the property names: score[i] = chord changes THAT score object and nothing else
+        if not a[0].chords:
+            raise Skip()
+        a[0][r.randrange(len(a[0].chords))] = a[1]
+        return None
+    add("inplace:score[i]=chord", ["score", "chord"], assign_item)
+    add("score*1", ["score"], lambda a, r: a[0] * 1)
+    add("chord*1", ["chord"], lambda a, r: a[0] * 1)
     add("ton+ton", ["ton", "ton"], lambda a, r: a[0] + a[1])
     add("ton-ton", ["ton", "ton"], lambda a, r: a[0] - a[1])
     add("ton.o", ["ton"], lambda a, r: a[0].o(r.choice([1, -1])))
@@ -724,6 +777,9 @@ class Histories(Stream):
                 walk(o, after)
             trace.append(label if err is None else label + "!" + err)
             changed = [i for i, f in before.items() if after.get(i) != f]
+            if label.startswith("inplace:"):
+                # the target of the in-place form may change, nothing else (the chord it dropped may no longer be reachable from the pool)
+                changed = [i for i in changed if i != id(operands[0]) and i in after]
             if changed:
                 i = changed[0]
                 libname = next((nm for nm, o in libs if id(o) == i), None)
